@@ -48,7 +48,7 @@ func progScript(cfg string, toks []string, method []string) []string {
 func countTasks(toks []string) int {
 	n := 0
 	for _, t := range toks {
-		if len(t) > 3 && (t[:3] == "wt." || t[:3] == "rp.") {
+		if len(t) > 3 && (t[:3] == "wt." || t[:3] == "rp." || t[:3] == "rs.") {
 			n++
 		}
 	}
@@ -95,6 +95,50 @@ func (e *env) programs() {
 	for _, b := range baseToks {
 		rec([]string{b})
 	}
+	// the real localBlobReplicator under live and cancelled contexts; programs that abandon a handle
+	extra := 0
+	emit := func(toks []string) {
+		for mi, m := range methods {
+			cfg := fmt.Sprintf("content=%s corrupt=%d bytes=%d relast=-1 chunk=%d split=%d", hexOr(content), (extra+mi)%3, (extra+mi)%3, 1+(extra+mi)%5, (extra+mi)%4)
+			e.handle(fmt.Sprintf("exhaustive/special%d", extra), progScript(cfg, toks, m))
+			extra++
+		}
+	}
+	for _, b := range baseToks {
+		for _, pre := range append([]string{""}, opToks...) {
+			for _, rs := range []string{"rs.live", "rs.cancel"} {
+				for _, post := range []string{"", "eh", "wt.0", "cs.l.r"} {
+					toks := []string{b}
+					for _, t := range []string{pre, rs, post} {
+						if t != "" {
+							toks = append(toks, t)
+						}
+					}
+					if !e.stop() {
+						emit(toks)
+					}
+				}
+			}
+		}
+	}
+	for _, b := range []string{"b.rd.g", "b.rd.c", "b.rd.e14", "b.ch.g", "b.ch.c", "b.ch.e5"} {
+		for _, pre := range []string{"", "eh", "wt.0", "cs.l.d", "cc.l"} {
+			for _, ab := range []string{"rp.l.a.0", "rp.r.a.10", "cs.l.a"} {
+				for _, post := range []string{"", "eh", "wt.0"} {
+					toks := []string{b}
+					for _, t := range []string{pre, ab, post} {
+						if t != "" {
+							toks = append(toks, t)
+						}
+					}
+					if !e.stop() {
+						emit(toks)
+					}
+				}
+			}
+		}
+	}
+	e.run.Extra("replicator_and_abandon_cases", extra)
 	e.run.Extra("programs_depth", depth)
 	e.run.Extra("program_cases", total)
 	// random programs: deeper, other blob sizes
